@@ -41,6 +41,24 @@ def _twins(spec):
     return out[:3]
 
 
+def _unfixed(spec):
+    """the same spec without pre-fixed sub-propositions (outside C01 by the statement)"""
+    import copy
+    spec = copy.deepcopy(spec)
+    for n in oracle.spec_nodes(spec):
+        n.pop("fix", None)
+    return spec
+
+
+def _adversarial(tier):
+    """models written to confuse validation (ids re-used across branches, look-alike definitions, coinciding generated ids):
+    whatever of them PASSES validation is in the domain of C01"""
+    from hypothesis import strategies as st
+    c10 = __import__("vf.props.c10", fromlist=["x"])
+    return st.one_of(c10.adversarial(tier), c10.coincidence(tier).map(lambda c_: {"model": c10._resolve(c_["model"])})) \
+        .map(lambda c_: {"model": _unfixed(c_["model"]), "points": None})
+
+
 def check_model(case, ev, max_eval=6):
     spec = case["model"]
     m = common.build_valid(case, ev)
@@ -138,7 +156,7 @@ def empty(slice_i, n):
 
 def parts(tier):
     q = tier == "quick"
-    return [Part("empty0", enumerate_cases=(lambda t: empty(0, 1)), check=check_model, time_quick=120.0), Part("wide_nodes", strategy=lambda t: __import__("vf.strategies", fromlist=["x"]).wide_case(), check=check_model, quick=(2, 150), thorough=(4, 2000))] + [Part("class_twins", strategy=lambda t: __import__("vf.strategies", fromlist=["x"]).class_twin_spec().map(lambda s_: {"model": s_, "points": None}), check=check_model, quick=(1, 300), thorough=(2, 3000))] + [Part("bounding%d" % i, enumerate_cases=(lambda t, i=i: ({"model": s_, "points": None} for s_ in __import__("vf.strategies", fromlist=["x"]).bounding_shapes(i, 2))), check=check_model, time_quick=120.0) for i in range(2)] + [Part("mixed%d" % i, enumerate_cases=(lambda t, i=i: mixed(i, 8)), check=check_model, time_quick=150.0) for i in range(8)] + [Part("shapes%d" % i, enumerate_cases=(lambda t, i=i: shapes(i, 4)), check=check_model, time_quick=120.0) for i in range(4)] + [
+    return [Part("adversarial_valid", strategy=lambda t: _adversarial(t), check=check_model, quick=(2, 400), thorough=(4, 4000)), Part("empty0", enumerate_cases=(lambda t: empty(0, 1)), check=check_model, time_quick=120.0), Part("wide_nodes", strategy=lambda t: __import__("vf.strategies", fromlist=["x"]).wide_case(), check=check_model, quick=(2, 150), thorough=(4, 2000))] + [Part("class_twins", strategy=lambda t: __import__("vf.strategies", fromlist=["x"]).class_twin_spec().map(lambda s_: {"model": s_, "points": None}), check=check_model, quick=(1, 300), thorough=(2, 3000))] + [Part("bounding%d" % i, enumerate_cases=(lambda t, i=i: ({"model": s_, "points": None} for s_ in __import__("vf.strategies", fromlist=["x"]).bounding_shapes(i, 2))), check=check_model, time_quick=120.0) for i in range(2)] + [Part("mixed%d" % i, enumerate_cases=(lambda t, i=i: mixed(i, 8)), check=check_model, time_quick=150.0) for i in range(8)] + [Part("shapes%d" % i, enumerate_cases=(lambda t, i=i: shapes(i, 4)), check=check_model, time_quick=120.0) for i in range(4)] + [
         Part("small", strategy=lambda t: common.model_case(guard=1500 if t == "quick" else 6000, depth=3 if t == "quick" else 4,
                                                            profile="small"),
              check=check_model, quick=(6, 400), thorough=(12, 2500)),
